@@ -25,6 +25,7 @@ def run(ctx):
     R.carried_buffer(ctx, "C04.3")
     R.absent_data(ctx, "C04.4")
     R.digest_pairing(ctx, "C04.5")
+    R.exhaustion_guard(ctx, "C04.6")
 
 
 MUTANTS = MUT_C04
